@@ -309,18 +309,18 @@ from .claimapi import PROPS  # noqa: E402
 _ADDENDA = {
     'C01': '(R9, pipeline table) 43 selectors of a pool select, on an HTML reference tree, exactly the elements the Selectors '
            'specification designates (expectations written out by hand); (R1) the relations table covers a detached fragment, (R3) every '
-           'token kind of the tokenizer has a handler that records or refuses it and reads only groups its pattern defines. (R9 also) on a tree of look-alike elements 48 selectors give the same answer when every element carries a unique attribute no selector reads, and when the comments, empty comments and empty strings between the elements are taken out; (R5) the class / id conjunction for every list of up to three names, repeated names included.',
+           'token kind of the tokenizer has a handler that records or refuses it and reads only groups its pattern defines. (R9 also) on a tree of look-alike elements 48 selectors give the same answer when every element carries a unique attribute no selector reads, and when the comments, empty comments and empty strings between the elements are taken out; (R5) the class / id conjunction for every list of up to three names, repeated names included. (R9 also) a compound of two simple selectors of different families selects the intersection, in both orders (28 selectors, every second pair).',
     'C02': '(R5, pipeline table) 35 An+B forms x six pseudo-class variants (incl. "of S") through parser and matcher equal the formula; '
-           '(R1) the bounded table includes an element without a parent. (R5) pairs of An+B in one compound (intersection), one list (union) and under :not() (difference), with different "of S" clauses. (R5 also) the same "of S" spelled with an explicit universal selector (*.k, *|*.k, *|*:is(.k) ...).',
+           '(R1) the bounded table includes an element without a parent. (R5) pairs of An+B in one compound (intersection), one list (union) and under :not() (difference), with different "of S" clauses. (R5 also) the same "of S" spelled with an explicit universal selector (*.k, *|*.k, *|*:is(.k) ...). (R5 also) the element children of the document object (several top-level elements, XML and HTML) are counted like any siblings, from both ends.',
     'C03': '(R5, pipeline table) select / iselect / select_one / limit / filter(tag) / filter(iterable) / closest / scoped select agree with '
            'match() element by element for a pool of selectors on HTML and XML flavours of a reference tree; (R2) closest(), filter() (also '
-           'from the document object) and the descendant walk of select() as tables, and match_selectors leaves the matcher state as it was. (R6) results do not depend on the element a call starts from (SVG / MathML subtrees); (R7) 23 selector shapes give the same answer with :scope, with & and with the #id of the call target in its place, through select / select_one / match / closest / filter for several call targets and the document. (R5 also) select() equals the per-element answers of match() on a form tree and on a document with several top-level elements; (R7) the document as call target against the #id of the root element, with a nested document in the tree.',
+           'from the document object) and the descendant walk of select() as tables, and match_selectors leaves the matcher state as it was. (R6) results do not depend on the element a call starts from (SVG / MathML subtrees); (R7) 23 selector shapes give the same answer with :scope, with & and with the #id of the call target in its place, through select / select_one / match / closest / filter for several call targets and the document. (R5 also) select() equals the per-element answers of match() on a form tree and on a document with several top-level elements; (R7) the document as call target against the #id of the root element, with a nested document in the tree. (R5 also) filter(tag) on iframe / form / root elements equals the children match() accepts; (R7 also) custom selectors whose definitions use :scope, with and without limit.',
     'C04': '(R5, pipeline table) one compiled selector object gives the same answers before and after other queries and equals a fresh '
-           'compile; (R4) match_selectors restores namespaces / iframe_restrict for plain and nested HTML-only lists. (R5 also) the one-call table (select() against fresh per-element match() on a form tree with a language pragma after another meta, radio groups, a textarea holding an iframe; a multi-rooted document) and the look-alike table.',
+           'compile; (R4) match_selectors restores namespaces / iframe_restrict for plain and nested HTML-only lists. (R5 also) the one-call table (select() against fresh per-element match() on a form tree with a language pragma after another meta, radio groups, a textarea holding an iframe; a multi-rooted document) and the look-alike table. (R5 also) trees with dir=auto under foreign elements, three interleaved radio groups (names differing in case), controls inside and outside an iframe; a list selects the union of its alternatives asked in queries of their own.',
     'C05': '(R1) the list-level facts of `a, a<E>` for every simple selector E depend only on the parse flags (two recorded findings: '
            ':defined and :dir()); (R2) every list of one to three passing / failing / un-matchable alternatives, plain and negated; (R6, '
            'texts compiled by interpretation) `A, B`, :is(A, B), :where(A, B), :not(A, B) compile to the concatenation of their '
-           'alternatives, for every separator spelling; (R7, pipeline table) union / complement / intersection laws on HTML and XML trees. (R7 also) the same laws one level down - :is(X:is(A)), :where(...), :not(X:is(A), b), "of X:is(A)" - and for lists of up to nine alternatives (type selectors under a default namespace, classes, ids, mixed) bare, inside :is(), *|*:not() and "of S". (R7 also) the laws with 26 state / text pseudo-classes and id selectors as operands on a form tree (html.parser-like and XHTML flavours).',
+           'alternatives, for every separator spelling; (R7, pipeline table) union / complement / intersection laws on HTML and XML trees. (R7 also) the same laws one level down - :is(X:is(A)), :where(...), :not(X:is(A), b), "of X:is(A)" - and for lists of up to nine alternatives (type selectors under a default namespace, classes, ids, mixed) bare, inside :is(), *|*:not() and "of S". (R7 also) the laws with 26 state / text pseudo-classes and id selectors as operands on a form tree (html.parser-like and XHTML flavours). (R7 also) four levels of nested :is() / :where() / :not() change nothing.',
     'C06': '(R6, texts compiled by interpretation) every sequence of up to two (thorough: three) fragments of a 57-fragment alphabet and '
            '~110 hand-picked malformed texts and custom maps compile or raise SelectorSyntaxError / NotImplementedError; (R7) no parser-side '
            'regex is exponentially ambiguous. (R2) standard-library functions that raise on part of their domain (unicodedata.name without default, itertools.islice with a possibly negative bound, json / codecs / math ...) and str.encode without an error handler are partial operations like int() / chr().',
@@ -341,10 +341,10 @@ _ADDENDA = {
            'in the same process; compile(compiled) returns its argument. (R6) every memoising function reachable from compile() that holds compiled structure is bounded and cleared by purge(); (R7, texts compiled by interpretation) 63 patterns compile to the same structure whatever was compiled before them in the same process (four orders), module-level state of the interpreted package carried along. (R7 also) a namespaces / custom dict changed in place between two calls is read again; (R2 also) a class that defines its own __reduce__ is interpreted on an instance of every subclass and must rebuild that subclass.',
     'C16': '(R5) every positional argument of every self.api.<function>(...) call in the installed bs4/css.py (limit, flags, the prefix map) reaches the '
            'parameter of the same name of soupsieve.<function>: Beautiful Soup and soupsieve give one meaning to limit= and flags=; (R6) no '
-           'import-time code operates on a docstring, which is None under python -OO.',
+           'import-time code operates on a docstring, which is None under python -OO. (R7) no comparison of text with bytes anywhere in the package, by inferred types (a BytesWarning under python -b while the package is imported).',
     'C17': '(R7, pipeline table) :dir() below dir=auto with invalid dir values, radio groups in nested forms, :default, :placeholder-shown. (R7 also) a disabled fieldset of the outer document does not disable controls of a document nested in it, at any depth. (R6 also) values and text of white space only.',
     'C18': '(R4/R6/R7) which input types parse_value understands, which conversion every regex group goes through and that parsed tuples '
-           'hold numbers of one arity are observed by interpreting parse_value, wherever the code sits. (R9) Inputs.parse_value("week", ...) by interpretation for weeks 00, 01, 26, 52, 53, 54 of every year of a 400-year cycle and boundary years: no valid week string is rejected, weeks 0 and 54 never accepted; the over-acceptance of week 53 for the years whose 31 December lies in week 1 is a recorded finding (the existing tests pin it). (R6 also) parse_value("number" / "range") by interpretation on 29 valid number strings at the edges of the float range (overflow, underflow, signed zero, 400 digits) and 18 invalid ones.',
+           'hold numbers of one arity are observed by interpreting parse_value, wherever the code sits. (R9) Inputs.parse_value("week", ...) by interpretation for weeks 00, 01, 26, 52, 53, 54 of every year of a 400-year cycle and boundary years: no valid week string is rejected, weeks 0 and 54 never accepted; the over-acceptance of week 53 for the years whose 31 December lies in week 1 is a recorded finding (the existing tests pin it). (R6 also) parse_value("number" / "range") by interpretation on 29 valid number strings at the edges of the float range (overflow, underflow, signed zero, 400 digits) and 18 invalid ones. (R4 also) a value its shape regex accepts and its validators pass is parsed whatever its length (types whose shapes have no longest member).',
     'C19': '(R6, pipeline table) :-soup-contains / -own / :empty on a tree with split text, comments, CDATA, a processing instruction, an '
            'iframe and elements without text nodes (empty needle included). (R6 also) every second substring (length <= 6) of a text split over five nodes of three depths, negatives, and lists of needles of different lengths; an element named iframe in a foreign namespace is no boundary.',
     'C20': '(R8, texts compiled by interpretation) the offset of every SelectorSyntaxError raised for ~170 malformed texts and custom '
